@@ -12,6 +12,10 @@ def plan(tier):
         for part in parts:
             units.append(dict(name='%s-p%d' % (comp, part), src='C05.cpp', compiler=comp, mode='ndebug', opt='-O0',
                               defines=['VF_TIER=%d' % t, 'VF_PART=%d' % part], shards=2))
+    # corner products with 8- and 16-bit Narrowest types (the storage ladder below int)
+    for d in ([8, 15] if not t else [1, 7, 8, 9, 15, 16]):
+        units.append(dict(name='g++-narrow%d' % d, src='C05.cpp', compiler='g++', mode='ndebug', opt='-O0',
+                          defines=['VF_TIER=%d' % t, 'VF_PART=%d' % (3000 + d)], shards=2))
     # elastic_integer op built-in integer (either side)
     for d in ([3, 8] if not t else [1, 3, 7, 8]):
         units.append(dict(name='g++-builtin%d' % d, src='C05.cpp', compiler='g++', mode='ndebug', opt='-O0',
@@ -48,7 +52,7 @@ def plan(tier):
              '{0,+-1,+-2,+-3,+-7,+-(2^D-1),+-(2^D-2),+-2^(D-1)(+-1),+-2^(D/2)(+-1),0101..} for digit pairs from %s x same; '
              'elastic_scaled_integer: + - * unary - over lattice values for digit/exponent pairs whose digits + alignment gap hit 8/16/32/64 (+-1); '
              'non-trivial = an operand at the edge of its declared range or operand types differ' % (value_parts, corner_digits),
-        bound=dict(value_digits_lhs=value_parts, value_digits_rhs=[1, 7], corner_digits=corner_digits, wide_storage_corner_digits=wide_digits, narrowest=['int8_t/uint8_t', 'int/unsigned']),
+        bound=dict(value_digits_lhs=value_parts, value_digits_rhs=[1, 7], corner_digits=corner_digits, wide_storage_corner_digits=wide_digits, narrowest=['int8_t/uint8_t', 'int16_t/uint16_t (corners)', 'int/unsigned']),
         assumptions=['>> by a constant is judged as floor(x / 2^k) (arithmetic shift)',
                      'bitwise operators are not part of the property and are not checked'],
         deadline_s=1500 if t else 240,
